@@ -206,6 +206,21 @@ def run(ctx, rep):
         rep.ob(not probs2, 'R03.4', c, 'bitmap length before sweep',
                'sweep() frees the objects whose bit is clear: the bitmap must first be sized to objects.len(); here it is %s, so objects beyond its length are never freed' % sorted(set(probs2)),
                fn.loc())
+    # a clear bit is the verdict `unreachable: free it`.  Only a collection cycle may create clear bits (GC::run sizes the bitmap,
+    # marks, sweeps); every other function that touches the bitmap may only drop bits (truncate / clear / reserve capacity)
+    GROW = ('::resize', '::push', '::extend', '::insert', '::fill', '::extend_from_bitslice', '::grow', '::set_elements', '::resize_with', '::append')
+    ncreate = 0
+    for f_ in F.all_fns:
+        if f_.crate != 'lib':
+            continue
+        for b_, t_ in f_.calls():
+            n_ = callee_name(t_)
+            if 'bitvec' in n_ and n_.endswith(GROW) and t_['args'] and 'mark_bitmap' in str(sym(f_, t_['args'][0])):
+                ncreate += 1
+                rep.ob(f_.path == GCN + 'run', 'R03.4', f_.path, 'creates bitmap bits (%s)' % n_.split('::')[-1],
+                       'bits of the mark bitmap are created outside a collection cycle: whatever they say about reachability was never computed, '
+                       'and the next sweep (at the latest the one in GC::destroy) frees the objects they call unmarked', span_loc(t_['span']))
+    rep.count('bitmap_bit_creations', ncreate)
     # sweep keeps list and bitmap in step
     sw = F.fn(GCN + 'sweep')
     tr = [t for b, t in sw.calls() if callee_name(t).endswith('::truncate') and 'BitVec' in callee_name(t)]
